@@ -134,10 +134,21 @@ LoadCommon ==
     /\ nloads' = nloads + 1 /\ loadAt' = clock /\ pubSince' = FALSE
     /\ spin' = (spin \/ (nloads > 0 /\ ~pubSince /\ clock - loadAt < Refresh))
     /\ UNCHANGED <<reg, hs, cur, last, clock>>
+\* Two Good contents can hold the SAME material (the same PEM blocks, byte for byte) under
+\* other file names: an operator renames the files to make another certificate the default
+\* (documentation: "loaded in alphabetical order and the first certificate is the default").
+\* By convention content s \o "r" is content s with its file names permuted.  The material is
+\* usable and the content DIFFERS from what was published (other order, other default), so it
+\* is a change like any other: it is published and takes effect for new handshakes.
+Renamed(s, t) == s # None /\ t # None /\ (t = s \o "r" \/ s = t \o "r")
 LoadGood(s) ==          \* new usable material
-    /\ s \in Good /\ s # last /\ LoadCommon
+    /\ s \in Good /\ s # last /\ ~Renamed(last, s) /\ LoadCommon
     /\ pend' = s /\ wpc' = "publish" /\ badReg' = NoBad
     /\ hist' = Note("good", s)
+LoadRenamed(s) ==       \* the material published last, under permuted file names
+    /\ s \in Good /\ Renamed(last, s) /\ LoadCommon
+    /\ pend' = s /\ wpc' = "publish" /\ badReg' = NoBad
+    /\ hist' = Note("rename", s)
 LoadSame ==             \* the source still delivers what was published last
     /\ last # None /\ LoadCommon
     /\ wpc' = "sleep" /\ hist' = Note("same", last)
@@ -178,6 +189,7 @@ Sleep ==
 
 WatcherNext ==
     \/ \E s \in Good : LoadGood(s)
+    \/ \E s \in Good : LoadRenamed(s)
     \/ LoadSame
     \/ \E u \in Unusable : LoadUnusable(u)
     \/ \E e \in Failing : LoadError(e)
@@ -202,7 +214,10 @@ TakesEffect == \A c \in Clients : hs[c].pc = "inv" => cur \in hs[c].seen
 
 \* material that cannot be used never changes what is published
 BadKeepsGood == badReg # NoBad => reg = badReg
-BadNeverPublishes == \A i \in DOMAIN hist : hist[i].kind # "good" => hist[i].pub = None
+BadNeverPublishes == \A i \in DOMAIN hist : hist[i].kind \notin {"good", "rename"} => hist[i].pub = None
+\* a content that differs from the published one in its file names only is published like any other change
+RenameTakesEffect == \A i \in DOMAIN hist :
+    (hist[i].kind = "rename" /\ (i < Len(hist) \/ wpc = "load")) => hist[i].pub = hist[i].content
 RegIsLastGood == wpc # "publish2" => reg = Unit(last)
 
 \* the watcher does not spin
